@@ -26,6 +26,24 @@ def _use(it, st, uses, env):
         it.assume(st, it.ev_contract_expr(prop, s3))
 
 
+def instantiate(it, st, lname, binding):
+    """the statement of a (separately proved) lemma at the given arguments, as a z3 fact"""
+    from pyvc.values import zbool
+    vars_, prop, _ = PROPS[lname]
+    e2 = dict(st.env)
+    for k, expr in binding.items():
+        s2 = State(dict(st.env), st.pc, st.decisions, st.assumed)
+        e2[k] = it.ev_contract_expr(expr, s2)
+    missing = [v for v in vars_ if v not in binding]
+    if missing:
+        raise KeyError(f"lemma {lname}: unbound {missing}")
+    v = it.ev_contract_expr(prop, State(e2, st.pc, st.decisions, st.assumed))
+    return zbool(v) if isinstance(v, SV) else z3.BoolVal(bool(v))
+
+
+GROUPS: dict = {}  # lemma name -> list of obligations names (base/step) to prove
+
+
 def induction(name, vars_, prop, on="j", hyps=(), uses_base=(), uses_step=(), lo=0):
     """prove  forall vars, on >= lo . hyps => prop   by induction on `on`"""
     PROPS[name] = (dict(vars_, **{on: "Int"}), prop, on)
@@ -54,6 +72,7 @@ def induction(name, vars_, prop, on="j", hyps=(), uses_base=(), uses_step=(), lo
 
     LEMMAS[name + ".base"] = base
     LEMMAS[name + ".step"] = step
+    GROUPS[name] = [name + ".base", name + ".step"] + [x for u, _ in list(uses_base) + list(uses_step) for x in GROUPS.get(u, [])]
     return [name + ".base", name + ".step"]
 
 
@@ -68,6 +87,7 @@ def direct(name, vars_, prop, hyps=(), uses=()):
         return it.ev_contract_expr(prop, st)
 
     LEMMAS[name] = f
+    GROUPS[name] = [name] + [x for u, _ in uses for x in GROUPS.get(u, [])]
     return [name]
 
 
@@ -85,4 +105,24 @@ L1 += induction(
     "L1.map_state_at", {"SD": "Seq[Atom]", "i": "Int"},
     "implies(i >= 0 and i < j, map_state(SD, j)[i] == SD[i].state)",
     uses_step=[("L1.map_state_len", {"j": "j - 1"})],
+)
+
+
+def prefix_stability(fname, params, seqvar, elemty):
+    """F(.., S ++ T, .., j) == F(.., S, .., j) for 0 <= j <= len(S): generic for prefix-recursive spec functions"""
+    args_l = ", ".join((f"{seqvar} + T" if p == seqvar else p) for p in params if p != "j")
+    args_r = ", ".join(p for p in params if p != "j")
+    vars_ = {p: t for p, t in params.items() if p != "j"}
+    vars_["T"] = f"Seq[{elemty}]"
+    return induction(f"stab.{fname}", vars_, f"implies(j <= len({seqvar}), {fname}({args_l}, j) == {fname}({args_r}, j))")
+
+
+STAB = []
+STAB += prefix_stability("filter_sd", {"SA": "Seq[Atom]", "j": "Int"}, "SA", "Atom")
+STAB += prefix_stability("count_sd", {"SA": "Seq[Atom]", "j": "Int"}, "SA", "Atom")
+
+C12L = induction(
+    "C12.filter_kept_preserves_sd", {"A": "Seq[Atom]", "D": "Dict[Name,Set[Name]]"},
+    "filter_sd(filter_kept(A, D, j), len(filter_kept(A, D, j))) == filter_sd(A, j)",
+    uses_step=[("stab.filter_sd", {"SA": "filter_kept(A, D, j - 1)", "T": "[A[j - 1]]", "j": "len(filter_kept(A, D, j - 1))"})],
 )
